@@ -677,8 +677,11 @@ func sameVerdictAtoms(fn *ssa.Function, R *Renderer) []string {
 // wire struct; controller side: wire struct -> types.RegReplica).  Every field the election
 // reads (Address, RevCount, RepType, RepState, UpTime, UUID) must be carried over by both,
 // each from its own source.
-func ruleC09RegWire(c *Ctx) {
-	const rule = "C09-REGWIRE"
+func ruleC09RegWire(c *Ctx) { regWireRule(c, "C09-REGWIRE") }
+
+func ruleRegWire(rule string) ruleFn { return func(c *Ctx) { regWireRule(c, rule) } }
+
+func regWireRule(c *Ctx, rule string) {
 	c.Doc(rule, "controller/client Register fills every field of the wire RegReplica from its own parameter (RevCount as a decimal string); the REST handler RegisterReplica copies every field of types.RegReplica from the same-named field of the request it read (RevCount parsed base 10, 64 bit) and hands that value to Controller.RegisterReplica")
 	want := []string{"Address", "UUID", "UpTime", "RevCount", "RepType", "RepState"}
 	// controller side
@@ -798,5 +801,58 @@ func ruleSendFile(rule string) ruleFn {
 		if len(ok) == 0 {
 			c.Bad(rule, FnName(fn)+" | success return", "", "no success return", nil)
 		}
+	}
+}
+
+// C19-STATUSWIRE: the clone status the controller waits on travels replica -> REST model ->
+// remote backend -> replicator unchanged.  A hop that substitutes a value (e.g. "NA" for an
+// empty status) makes the controller promote a clone before the copy has run.
+func ruleCloneStatusWire(rule string) ruleFn {
+	return func(c *Ctx) {
+		c.Doc(rule, "every hop that reports the clone status forwards the value it received: rest.NewReplica publishes Replica.GetCloneStatus(), remote.GetCloneStatus returns the CloneStatus field of the REST answer on its only success return, replicator.GetCloneStatus returns the backend's value")
+		chk := func(name string, okVal func(string) bool, desc string) {
+			fn := c.Anchor(rule, name)
+			if fn == nil {
+				return
+			}
+			R := NewRenderer(fn)
+			rets := successReturns(fn)
+			bad := ""
+			for _, r := range rets {
+				v := R.V(r.(*ssa.Return).Results[0])
+				if !okVal(v) {
+					bad = v
+				}
+			}
+			if len(rets) > 0 && bad == "" {
+				c.OK(rule, name+" | forwards the status", c.P.Pos(fn.Pos()), desc, false)
+			} else {
+				c.Bad(rule, name+" | forwards the status", c.P.Pos(fn.Pos()), "a success return hands out "+bad+" instead of "+desc, nil)
+			}
+		}
+		chk("(*backend/remote.Remote).GetCloneStatus", func(v string) bool {
+			return strings.HasSuffix(v, ".CloneStatus") && !strings.Contains(v, "phi{")
+		}, "the CloneStatus field of the replica's REST answer")
+		chk(fRepl+"GetCloneStatus", func(v string) bool {
+			return strings.HasPrefix(v, "invoke.GetCloneStatus(") && strings.HasSuffix(v, "#0")
+		}, "the backend's GetCloneStatus result")
+		if fn := c.Anchor(rule, "replica/rest.NewReplica"); fn != nil {
+			R := NewRenderer(fn)
+			n := 0
+			eachInstr(fn, func(in ssa.Instruction) {
+				if s, ok := in.(*ssa.Store); ok && strings.HasSuffix(R.V(s.Addr), ".CloneStatus") {
+					n++
+					if v := R.V(s.Val); v != c.P.callTerm(fRep+"GetCloneStatus", "$3") && v != fRep+"GetCloneStatus($3)" {
+						c.Bad(rule, FnName(fn)+" | publishes the replica's status", c.P.InstrPos(in), "CloneStatus published is "+v, nil)
+					} else {
+						c.OK(rule, FnName(fn)+" | publishes the replica's status", c.P.InstrPos(in), v, false)
+					}
+				}
+			})
+			if n == 0 {
+				c.Bad(rule, FnName(fn)+" | publishes the replica's status", "", "the REST model no longer carries CloneStatus", nil)
+			}
+		}
+		c.Floor(rule, 3)
 	}
 }
